@@ -645,7 +645,7 @@ func randCase(g *Gen, s string) string {
 // representation choices are made at random.
 func (g *Gen) Value(t *Ty, env Env, depth int) *Val {
 	g.count("val:" + t.T)
-	if depth > 12 {
+	if depth > 9 {
 		return Nil() // recursion through references that the schema forces: give up (invalid value)
 	}
 	switch t.T {
@@ -694,6 +694,9 @@ func (g *Gen) Value(t *Ty, env Env, depth int) *Val {
 		return Str(s)
 	case "list":
 		n := int(g.sizeValue(t.Min, t.Max))
+		if depth > 3 && n > 1 {
+			n = 1
+		}
 		l := &Val{Kind: "l"}
 		for i := 0; i < n; i++ {
 			l.L = append(l.L, g.Value(t.Item, env, depth+1))
@@ -711,6 +714,9 @@ func (g *Gen) Value(t *Ty, env Env, depth int) *Val {
 		return l
 	case "map":
 		n := int(g.sizeValue(t.Min, t.Max))
+		if depth > 3 && n > 1 {
+			n = 1
+		}
 		m := &Val{Kind: "m", MK: "any", MVA: true}
 		seen := map[string]bool{}
 		allStr, allI64 := true, true
